@@ -99,14 +99,27 @@ def install(loader_mod, tracer: Tracer, max_poller_ops: int = 40):
     return undo
 
 
+CURRENT: dict = {"tracer": None}
+
+
+def _ext() -> None:
+    tr = CURRENT["tracer"]
+    if tr is not None:
+        tr.log("ext")
+
+
 class Src:
+    """the policy source of the traced scenarios: every call into it is an `ext` operation of the calling thread"""
+
     def __init__(self):
         self.n = 0
 
     def etag(self):
+        _ext()
         return None
 
     def load(self):
+        _ext()
         self.n += 1
         return {"rules": []}
 
@@ -124,9 +137,11 @@ def scenarios(repo_guard_cls, loader_mod, only: str | None = None) -> dict:
         tr = Tracer()
         tr.role[REAL_THREADING.get_ident()] = 0
         undo = install(loader_mod, tr)
+        CURRENT["tracer"] = tr
         try:
             fn(loader_mod)
         finally:
+            CURRENT["tracer"] = None
             undo()
         progs = {t: ops[:60] for t, ops in tr.ops.items()}
         out[name] = {"roots": [0], "progs": progs}
